@@ -62,6 +62,21 @@ pub fn inputs(seed: u64, tier: Tier) -> Vec<Input> {
             }
         }
     }
+    // substitutions in the first payload bytes of 5-byte-header streams (those bytes can be parked in the header
+    // staging buffer when the header arrives in pieces)
+    for it in items.iter().filter(|i| i.name == "mix+size" || i.name == "mix+marker") {
+        for k in [corpus::OptKind::ProvidedSome, corpus::OptKind::ProvidedNone] {
+            if let Some(b) = it.build(k) {
+                for pos in 5..b.bytes.len().min(tier.pick(22, 40)) {
+                    for f in [0x01u8, 0x08, 0x80] {
+                        let mut x = b.bytes.clone();
+                        x[pos] ^= f;
+                        v.push(Input { label: format!("{} [{:?}] byte {} ^{:02x}", it.name, k, pos, f), bytes: x, opts: b.opts, max_sym: 0 });
+                    }
+                }
+            }
+        }
+    }
     // liblzma-made files from the repository
     for (name, bytes) in corpus::repo_lzma_files(400) {
         v.push(Input { label: format!("repo file {}", name), bytes: bytes.clone(), opts: Opts::default(), max_sym: 0 });
